@@ -981,6 +981,19 @@ func (g *walkerGen) value(types []walkerTypeDef, t walkerTy, top bool) walkerVal
 		}
 		v.Kids = []walkerVal{inner}
 	case "slice", "map":
+		if t.K == "slice" && t.Of[0].K == "ptr" && g.nils && g.rnd.Intn(5) == 0 {
+			// a WIDE slice: 66..80 elements, almost all of them nil pointers, the last one always populated - whatever
+			// is done per skipped element must not add up to anything
+			n := 66 + g.rnd.Intn(15)
+			for i := 0; i < n; i++ {
+				if i < n-1 && g.rnd.Intn(12) > 0 {
+					v.Kids = append(v.Kids, walkerVal{K: "ptr", Nil: true, Kids: []walkerVal{}})
+				} else {
+					v.Kids = append(v.Kids, walkerVal{K: "ptr", Kids: []walkerVal{g.value(types, t.Of[0].Of[0], false)}})
+				}
+			}
+			return v
+		}
 		switch g.rnd.Intn(6) {
 		case 0:
 			v.Nil = true
